@@ -425,6 +425,18 @@ func cmdRun(args []string) int {
 	if floorMiss != "" && len(viols) == 0 {
 		inconc = append(inconc, "too little observed: "+floorMiss)
 	}
+	if len(samples) == 0 {
+		// no monitor-written sample: fall back to the descriptors of cases
+		// that were actually decided in this run
+		keys := make([]string, 0, len(distinct))
+		for k := range distinct {
+			keys = append(keys, k)
+		}
+		sort.Strings(keys)
+		for i := 0; i < len(keys) && i < 4; i++ {
+			samples = append(samples, map[string]any{"case_descriptor": keys[i]})
+		}
+	}
 	cov := map[string]any{
 		"evaluations":         evals,
 		"distinct_nontrivial": len(distinct),
